@@ -566,17 +566,41 @@ where
     S::Op: Clone + Debug + PartialEq + Hash + Send + Sync,
     S::Ret: Clone + Debug + PartialEq + Hash + Send + Sync,
 {
+    feed_with(tester, h, false)
+}
+
+/// As `feed`; with `invret` an invocation that is immediately followed by its own return is
+/// recorded through the convenience call `on_invret` (one call for both events). A rejection of
+/// that call is attributed to the invocation (the only event of such a pair that can make a
+/// history ill-formed).
+pub fn feed_with<S: SpecGen, T: TesterApi<S>>(tester: &mut T, h: &[Ev<S>], invret: bool) -> Option<usize>
+where
+    S::Op: Clone + Debug + PartialEq + Hash + Send + Sync,
+    S::Ret: Clone + Debug + PartialEq + Hash + Send + Sync,
+{
     let mut first_err = None;
-    for (i, e) in h.iter().enumerate() {
-        let ok = match e {
-            Ev::Inv(t, op) => tester.on_invoke(*t, op.clone()).is_ok(),
-            Ev::Ret(t, r) => tester.on_return(*t, r.clone()).is_ok(),
+    let mut i = 0;
+    while i < h.len() {
+        let (ok, used) = match (&h[i], h.get(i + 1)) {
+            (Ev::Inv(t, op), Some(Ev::Ret(t2, r))) if invret && t == t2 => (tester.on_invret(*t, op.clone(), r.clone()).is_ok(), 2),
+            (Ev::Inv(t, op), _) => (tester.on_invoke(*t, op.clone()).is_ok(), 1),
+            (Ev::Ret(t, r), _) => (tester.on_return(*t, r.clone()).is_ok(), 1),
         };
         if !ok && first_err.is_none() {
             first_err = Some(i);
         }
+        i += used;
     }
     first_err
+}
+
+/// Does the history contain an invocation immediately followed by its own return?
+pub fn has_adjacent_pair<S: SpecGen>(h: &[Ev<S>]) -> bool
+where
+    S::Op: Clone + Debug + PartialEq + Hash + Send + Sync,
+    S::Ret: Clone + Debug + PartialEq + Hash + Send + Sync,
+{
+    h.windows(2).any(|w| matches!((&w[0], &w[1]), (Ev::Inv(a, _), Ev::Ret(b, _)) if a == b))
 }
 
 /// Index of the first event that makes the history ill-formed.
